@@ -3,8 +3,8 @@
 #  in the seeding worktree /tmp/seed/<ID>: apply seed_out/patch<k>.diff, run the repository's baseline test command
 #  (cargo test --workspace --offline: must pass), run the demonstration (must FAIL), revert, run the demonstration (must PASS).
 #  Writes /verif/seeded/<ID>_<k>/{patch.diff,demo.rs,meta.json,confirm.log}.
-id="$1"; k="$2"
-wt=/tmp/seed/$id; out=/verif/seeded/${id}_$k
+id="$1"; k="$2"; ok="${3:-$2}"   # ok: number under which the change is stored (round 2: k+2)
+wt=/tmp/seed/$id; out=/verif/seeded/${id}_$ok
 mkdir -p "$out"; cp "$wt/seed_out/patch$k.diff" "$out/patch.diff"; cp "$wt/seed_out/demo$k.rs" "$out/demo.rs" 2>/dev/null
 [ -f "$wt/seed_out/meta$k.json" ] && cp "$wt/seed_out/meta$k.json" "$out/meta_agent.json"
 export CARGO_TARGET_DIR=$wt/target CARGO_NET_OFFLINE=true
@@ -23,7 +23,7 @@ timeout 3000 cargo test --offline --features $feat --test seed_${id}_demo$k 2>&1
 rm -f "$demo"; git checkout -q -- . 2>/dev/null
 echo "## demo WITH the change" >> "$log"; cat "$out/demo_with.txt" >> "$log"
 echo "## demo WITHOUT the change" >> "$log"; cat "$out/demo_without.txt" >> "$log"
-python3 - "$id" "$k" "$out" <<'PY'
+python3 - "$id" "$ok" "$out" <<'PY'
 import json,sys,re
 id,k,out=sys.argv[1:4]
 log=open(out+"/confirm.log").read()
